@@ -5,6 +5,7 @@ PROP = {
     "expected_facts": {},
     "harness": [{"name": "Sender", "pkg": "./syncer/", "test": "TestVerifSender", "timeout_thorough": "60m"}],
     "driver": "drv_Sender",
+    "gens": ["c10"],
     "violation_prefix": "C09:",
     "rule": "cases = (config, stream, schedule): config over txn/ticker mode x resumable x pipelined x batch count {1,2,3,4,8,100} x byte limit {1,40,200,2^30} x TargetDb/TargetDbMap x db/command/prefix filters x startDbId/pre-existing checkpoints; stream of 0-30 (quick) / 0-60 (thorough) source commands (binary args, SELECT to mapped/unmapped/filtered DBs, MULTI groups of 0-4 commands, PING, REPLCONF GETACK, sentinel hello, blacklisted and NoRoute commands, keys with reserved/filtered prefixes); schedule = writes of 1-6 commands at chosen virtual instants with idle gaps of 0-12 s (also before the first item) and five ticker-period triples, run on the REAL RedisOutput.sendAof (parser goroutine, sendCmdsBatch loop, real conn.RedisConn batchers) inside testing/synctest against the target double; output = the target's request log with the DB each request executes in, plus the real StartPoint after every (thorough) / sampled (quick) crash prefix of that log; compared line by line with the Lean model (parseStep, run, applyLog, startPoint). Independent Go monitors check the property on the real log. distinct_nontrivial = distinct non-empty request logs.",
     "trusted": ['target double (harness/overlay/pkg/vfdoubles/target.go): MULTI/EXEC atomicity, per-DB hashes, INFO keyspace; Redis command semantics of data commands are not interpreted', 'Go testing/synctest virtual time; select over simultaneously ready channels is never exercised (ticker periods and write instants are pairwise distinct)', 'RESP decoding (C12) and the filter functions (C10) are parameters of the model here: theorems hold for every filter'],
